@@ -58,7 +58,34 @@ def classify_text(text):
         return "str", text
     if first in "^$|*?\\/:;,<>=!@#%&` ." and text != "...":
         return "str", text
+    if _plainly_text(text):
+        return "str", text
     raise Ambiguous(text)
+
+
+_TEXTLIKE = {}
+
+
+def _plainly_text(text):
+    """Other spellings (1.1.5, 1.5-rc1, 1+ ...) are text when BOTH readings
+    agree: it is no Python literal at all and YAML loads it as a string."""
+    if text not in _TEXTLIKE:
+        import ast
+        verdict = False
+        if len(text) < 40 and "\n" not in text and text.strip() == text:
+            try:
+                ast.literal_eval(text)
+            except (ValueError, SyntaxError, TypeError, MemoryError,
+                    RecursionError):
+                from vkit import corpus
+                try:
+                    loaded = corpus.load(text + "\n")
+                    verdict = type(loaded).__name__ in (
+                        "str", "PlainScalarString") and str(loaded) == text
+                except Exception:         # pylint: disable=broad-except
+                    verdict = False
+        _TEXTLIKE[text] = verdict
+    return _TEXTLIKE[text]
 
 
 def classify(value):
